@@ -30,7 +30,10 @@ def obligations(chk):
                 ns = sym_arr("n_subaps", [z3.Int("n_wfs")], dtype="int")
                 it.ctx.assume(z3.Int("n_wfs") >= 1)
                 it.ctx.assume(zi(ns.get([0])) == n)
-                o.attrs.update(covariance_matrix=C, n_subaps=ns)
+                # object invariant established by the constructor: n_wfs sensors, total_subaps = sum(n_subaps) (the matrix is 2 total x 2 total);
+                # the sensors need not have the same number of sub-apertures
+                it.ctx.assume(z3.And(T >= zi(ns.get([0])), z3.Int("n_wfs") <= z3.If(T > 0, T, 1)))
+                o.attrs.update(covariance_matrix=C, n_subaps=ns, n_wfs=z3.Int("n_wfs"), total_subaps=T)
                 R = it.call_repo(SC, "CovarianceMatrix.make_tomographic_reconstructor", [cond], {}, self_obj=o)
                 holder["obj"] = o
             else:
